@@ -157,6 +157,14 @@ const SUM_FORMS: [&str; 20] = [
     "1 -> {x} / (1/{h}) / (1/{x}) / (1/{h}) / (1/{x}) / (1/{h}) / (1/{x}) / (1/{h}) / (1/{x}) / (1/{h})",
 ];
 const SUM_UNITS: [&str; 3] = ["m", "s", "kg"];
+/// Durations at the ends of the ranges behind date arithmetic: i64 milliseconds (chrono's
+/// TimeDelta is one narrower on the negative side), i64 nanoseconds, i64 seconds, i32 days.
+const EDGE_DURATIONS: [&str; 22] = [
+    "9223372036854775.807 s", "9223372036854775.808 s", "9223372036854775.8075 s", "9223372036854775.809 s", "9223372036854775807 ms", "9223372036854775808 ms",
+    "9223372036854775806.5 ms", "9223372036.854775807 s", "9223372036.854775808 s", "9223372036854775807 ns", "9223372036854775808 ns", "9223372036854775807 s",
+    "9223372036854775808 s", "2147483647 day", "2147483648 day", "106751991167 day", "106751991168 day", "8210298412799 s", "8210298412800 s", "0.0000000005 s", "1e-30 s", "1e30 s",
+];
+const EDGE_DUR_FORMS: [&str; 8] = ["now + {d}", "now - {d}", "now + -{d}", "now - -{d}", "#2020-01-01# + {d}", "#2020-01-01# - {d}", "{d} + now", "(now + {d}) - now"];
 const ZONE_WORDS: [&str; 30] = [
     "utc", "UTC", "Utc", "gmt", "GMT", "est", "EST", "mst", "hst", "cet", "eet", "met", "wet", "uct", "prc", "roc", "rok", "nz", "NZ", "gb", "GB", "us/pacific", "US/Pacific", "US/PACIFIC",
     "europe/london", "Europe/London", "z", "Z", "local", "\"utc\"",
@@ -395,6 +403,7 @@ impl C04 {
         fams.add("unit-list shapes with ans", vec![LIST_SHAPES.len() as u64]);
         fams.add("unit powers composed from small exponents", vec![TOWER_UNITS.len() as u64, TOWER_EXPS.len() as u64, TOWER_EXPS.len() as u64, TOWER_FORMS.len() as u64]);
         fams.add("sums, negations and products of unit powers near the exponent range", vec![SUM_UNITS.len() as u64, SUM_POWERS.len() as u64, SUM_FORMS.len() as u64]);
+        fams.add("a date plus or minus a duration at the ends of the time types", vec![EDGE_DURATIONS.len() as u64, EDGE_DUR_FORMS.len() as u64]);
         fams.add("conversion to zone-like words in every case", vec![ZONE_WORDS.len() as u64, ZONE_SOURCES.len() as u64, ZONE_ARROWS.len() as u64]);
         fams.add("date literals with boundary years", vec![DATE_YEARS.len() as u64, DATE_FORMS.len() as u64, DATE_ERAS.len() as u64, DATE_TAILS.len() as u64]);
         fams.add("numeral modes through the query path", vec![6, 5, 7, 4]);
@@ -542,6 +551,9 @@ impl C04 {
             let x = if f.contains("{h}") { x_s } else { x };
             return Some(f.replace("{x}", &x).replace("{h}", &h));
         }
+        if name.starts_with("a date plus or minus") {
+            return Some(EDGE_DUR_FORMS[d[1] as usize].replace("{d}", EDGE_DURATIONS[d[0] as usize]));
+        }
         if name.starts_with("conversion to zone-like") {
             return Some(format!("{} {} {}", ZONE_SOURCES[d[1] as usize], ZONE_ARROWS[d[2] as usize], ZONE_WORDS[d[0] as usize]));
         }
@@ -685,7 +697,7 @@ impl Space for C04 {
         Meta {
             id: "C04",
             level: "exploration",
-            rule: "four exhaustive families evaluated through rink_core::eval on a long-lived context (ans preset per case from a 6-value pool incl. a zero time and NaN), every reply rendered as Display, recursive span tree and serde_json: (1) all token sequences of length <= 3 (thorough 4) over a 68-token alphabet with one token per lexer/parser branch; (2) grammar-directed trees with unit/substance/date/zero leaves; (3) every single-character deviation (delete, duplicate, swap, insert/replace with each special character) at every position of every query string of core/tests/query.rs and the manual; (4) depth/length ladders up to 500 characters for 38 repeating units, all 1- and 2- (thorough 3-) character strings over a 160-character alphabet; (4a) unit powers composed from small exponents, `(u^a)^b` in 7 contexts for 16x16 exponent pairs whose products reach +-2^31, +-2^32, +-2^63 (cheap by construction: the exact result is 1 x unit^k, so the 5 s limit applies); (4d) 3 base units x 9 nested powers of magnitude 2^61..2^63 x 20 forms that add, negate, multiply and print them, incl. conversion targets whose named powers add up while the dimensionality cancels (s x Hz); (4c) conversions to 30 zone-like words in every case (utc/UTC/Utc, gb/GB, us/pacific, ...) from 4 sources with all three arrows; (4b) date literals: 14 boundary years (0, 1, 9999, 10000, chrono's limits +-262144, +-2^31, 2^63-1) x 8 pattern forms x 5 eras x 3 continuations; (5) the same inputs through the real `rink -f -` binary in batches with a sentinel after each input. Oracle: Ok or Err within 5 s, a well-formed span tree (no list separator outside a list: the CLI's indentation arithmetic underflows otherwise), no panic/abort/stack overflow (8 MiB)/2 GiB; canary `1 + 1` after every failure and every 1000 cases. Inputs classified expensive by a static rule (exponent/shift/power towers, >= 4-digit exponent literals) may time out but not panic. Non-trivial = the input produced a reply or an error (not a skipped index); distinct by input text".into(),
+            rule: "four exhaustive families evaluated through rink_core::eval on a long-lived context (ans preset per case from a 6-value pool incl. a zero time and NaN), every reply rendered as Display, recursive span tree and serde_json: (1) all token sequences of length <= 3 (thorough 4) over a 68-token alphabet with one token per lexer/parser branch; (2) grammar-directed trees with unit/substance/date/zero leaves; (3) every single-character deviation (delete, duplicate, swap, insert/replace with each special character) at every position of every query string of core/tests/query.rs and the manual; (4) depth/length ladders up to 500 characters for 38 repeating units, all 1- and 2- (thorough 3-) character strings over a 160-character alphabet; (4a) unit powers composed from small exponents, `(u^a)^b` in 7 contexts for 16x16 exponent pairs whose products reach +-2^31, +-2^32, +-2^63 (cheap by construction: the exact result is 1 x unit^k, so the 5 s limit applies); (4d) 3 base units x 9 nested powers of magnitude 2^61..2^63 x 20 forms that add, negate, multiply and print them, incl. conversion targets whose named powers add up while the dimensionality cancels (s x Hz); (4e) 22 durations at the ends of i64 milliseconds / nanoseconds / seconds and of chrono's narrower ranges, added to and subtracted from `now` and a date literal in 8 forms; (4c) conversions to 30 zone-like words in every case (utc/UTC/Utc, gb/GB, us/pacific, ...) from 4 sources with all three arrows; (4b) date literals: 14 boundary years (0, 1, 9999, 10000, chrono's limits +-262144, +-2^31, 2^63-1) x 8 pattern forms x 5 eras x 3 continuations; (5) the same inputs through the real `rink -f -` binary in batches with a sentinel after each input. Oracle: Ok or Err within 5 s, a well-formed span tree (no list separator outside a list: the CLI's indentation arithmetic underflows otherwise), no panic/abort/stack overflow (8 MiB)/2 GiB; canary `1 + 1` after every failure and every 1000 cases. Inputs classified expensive by a static rule (exponent/shift/power towers, >= 4-digit exponent literals) may time out but not panic. Non-trivial = the input produced a reply or an error (not a skipped index); distinct by input text".into(),
             assumptions: vec![
                 "8 MiB stack and 2 GiB address space stand for the resource envelope of a chat bot / CLI".into(),
                 "`ans` before each case is a deterministic function of the case index so that every failure replays in isolation".into(),
